@@ -190,6 +190,9 @@ impl Check for C05 {
                 if st.width_boundary_hits > 0 {
                     r.classes.push("id_at_width_boundary".into());
                 }
+                for p in &st.planted {
+                    r.classes.push(format!("planted_string_in_{}", p));
+                }
                 if want_sample {
                     r.sample = Some(json!({"image_bytes": image.len(), "raw_dump_head": before.lines().take(30).collect::<Vec<_>>()}));
                 }
